@@ -191,6 +191,38 @@ func (g *gen) next() *rec {
 	}
 }
 
+// jumboPart builds a peer block part message whose wire encoding is `below`
+// bytes under the largest message the consensus reactor accepts on its data
+// channel (the limit is read from the reactor's channel descriptors).
+func (g *gen) jumboPart(below int) *rec {
+	capacity := 0
+	for _, ch := range (&cs.ConsensusReactor{}).GetChannels() {
+		if ch.ID == cs.DataChannel {
+			capacity = ch.RecvMessageCapacity
+		}
+	}
+	target := capacity - below
+	mk := func(n int) *cs.BlockPartMessage {
+		// cheap deterministic filler (drawing a megabyte from the tape would bloat replay files)
+		b := make([]byte, n)
+		for i := range b {
+			b[i] = byte(i*7 + i>>8)
+		}
+		return &cs.BlockPartMessage{Height: g.h, Round: g.round, Part: &types.Part{Index: 0, Bytes: b, Proof: merkle.SimpleProof{Aunts: [][]byte{}}}}
+	}
+	n := target
+	var m *cs.BlockPartMessage
+	for tries := 0; tries < 64 && n > 0; tries++ {
+		m = mk(n)
+		sz := len(ser.MustEncodeToBytesWithType(m))
+		if sz == target {
+			break
+		}
+		n -= sz - target
+	}
+	return &rec{Kind: "part", Msg: cs.VerifPackMsg(m, g.peers[1+g.t.Int(2)])}
+}
+
 // ---------------------------------------------------------------- layout on disk
 
 type layout struct {
@@ -277,6 +309,8 @@ type state struct {
 	bound     map[int]bool
 	stats     map[string]int
 	stop      bool
+	// index of the first record the intact log could not be read back to (-1: none)
+	unreadableFrom int
 }
 
 func run(c *kernel.Ctx) {
@@ -295,6 +329,10 @@ func run(c *kernel.Ctx) {
 	if big {
 		budget /= 3 // every read of such a log moves ~100 KB
 	}
+	// 1 run in 10: one peer block part message as large as the consensus reactor
+	// accepts from a peer (the receive routine logs peer messages before it
+	// looks at them)
+	jumbo := !big && cfg.Bool(1, 10)
 	var nrec int
 	switch cfg.Pick(6, 4, 1) {
 	case 0:
@@ -306,6 +344,10 @@ func run(c *kernel.Ctx) {
 	}
 	if big && nrec > 40 {
 		nrec = 12 + nrec%29
+	}
+	if jumbo {
+		nrec = 5 + nrec%8
+		budget = 1500
 	}
 	var limit int64
 	switch cfg.Pick(4, 4, 2, 1) {
@@ -340,6 +382,11 @@ func run(c *kernel.Ctx) {
 		}
 		recs = append(recs, r)
 	}
+	if jumbo {
+		i := 1 + cfg.Int(len(recs)-1)
+		recs[i] = g.jumboPart(cfg.Int(130))
+		c.Probe("largest_peer_message_logs")
+	}
 	// the node ends every height with a marker: make sure there is one besides the initial one
 	hasMarker := false
 	for _, r := range recs[1:] {
@@ -347,6 +394,12 @@ func run(c *kernel.Ctx) {
 	}
 	if !hasMarker {
 		i := 1 + cfg.Int(len(recs)-1)
+		if recs[i].Kind == "part" && len(recs) > 2 {
+			i = 1 + i%(len(recs)-1) // keep the part (it may be the large one)
+			if recs[i].Kind == "part" {
+				i = 1 + i%(len(recs)-1)
+			}
+		}
 		h := g.h
 		for _, r := range recs[i:] {
 			// later records belong to the next height
@@ -373,7 +426,7 @@ func run(c *kernel.Ctx) {
 	}
 	defer dropRunDir(dir)
 
-	st := &state{c: c, recs: recs, written: map[uint64]bool{}, stats: map[string]int{}}
+	st := &state{c: c, recs: recs, written: map[uint64]bool{}, stats: map[string]int{}, unreadableFrom: -1}
 
 	// ---- write phase: real baseWAL on real files, virtual clock
 	rotations, ok := st.writeAll(filepath.Join(dir, "wal"), limit)
@@ -458,6 +511,12 @@ func run(c *kernel.Ctx) {
 
 	// ---- choose the damaged offsets
 	L := len(lay.concat)
+	if st.unreadableFrom >= 0 {
+		// a record that was written cannot be read back (reported above): only
+		// cuts that remove it leave a log the model can speak about
+		L = recs[st.unreadableFrom].Off
+		c.Probe("enumeration_limited_to_cuts_before_unreadable_record")
+	}
 	var cuts, flips []int
 	if 2*L+L/8 <= budget {
 		for x := 0; x < L; x++ {
@@ -517,8 +576,11 @@ func run(c *kernel.Ctx) {
 	}
 
 	// ---- a few cuts read through a freshly opened group without the later files
-	if len(lay.names) > 1 && !st.stop {
+	if len(lay.names) > 1 && !st.stop && st.unreadableFrom < 0 {
 		st.freshCuts(dmg, dir)
+	}
+	if st.unreadableFrom >= 0 {
+		flips = nil
 	}
 
 	// ---- single-byte changes
